@@ -83,6 +83,20 @@ CLAIMED = {
               "test. Not decided: byte-for-byte equality of eval_file(path) and eval(content) on generated programs."),
         technique="stream typestate by abstract interpretation (interprocedural summaries), dominance rules, critical-section rule",
         ref="DESIGN.md section 4 C19"),
+    "C13": dict(
+        text=("Decides data-race freedom of the engine's own shared state in the sense of lock discipline: a lock-set analysis "
+              "over RAII lock objects (including unlock()/lock() regions) shows that every read of a guarded field of "
+              "Dispatch_Engine, Type_Conversions and ChaiScript_Basic happens with its mutex held and every write with the "
+              "mutex held in unique mode - either directly or, for lock-free helpers and lambdas, at every caller on the same "
+              "object up to the public entry points and calls from outside the class; every field of the three classes is "
+              "classified (guarded-by / atomic / per-thread / immutable after construction / own synchronisation) and a new "
+              "field is a violation; every `mutable` field in the whole code base is atomic, a mutex or per-thread storage "
+              "(evaluation is const and runs concurrently); no non-recursive mutex is held across a call that re-acquires it "
+              "or can reach script/C++ callbacks; the single shared parser object parses with a fresh local parser. use()'s "
+              "exactly-once clause is decided in C19 R19.3. Not decided: per-thread results equal single-threaded runs; "
+              "registration visibility timing; races the script itself creates on shared global values."),
+        technique="lock-set analysis with requirement propagation over the resolved call graph; guarded-by table; mutable/field inventory",
+        ref="DESIGN.md section 4 C13"),
 }
 
 NOT_YET = "check not built yet in this session (design in DESIGN.md section 4); will be claimed once its rules run clean both ways"
